@@ -33,6 +33,7 @@ def run(ctx):
     ctx.rule('R11.3', 'every multi-word rule of SQL_REGEX separates its words with \\s+', floor=10)
     ctx.rule('R11.4', 'neighbour lookups in the parse path / accessors leave skip_ws at True', floor=10)
     ctx.rule('R11.5', 'whitespace tests on token types use containment (in T.Whitespace / is_whitespace), never identity/equality with T.Whitespace', floor=1)
+    ctx.rule('R11.7', 'no decision in the parse path depends on whether a whitespace token is a line break (is_newline / T.Newline)', floor=1)
     ctx.rule('R11.6', 'keyword classification depends only on value.upper(): is_keyword upper-cases its argument before the dictionary lookup', floor=1)
     V = VC.get_vocab(ctx)
     desc, node = VC.normalized_descriptor(ctx)
@@ -50,6 +51,7 @@ def run(ctx):
     check_skip_ws(ctx)
     check_ws_identity(ctx)
     check_is_keyword_upper(ctx)
+    check_newline_sensitivity(ctx)
 
 
 def match_descriptor(ctx, desc):
@@ -227,3 +229,35 @@ def check_is_keyword_upper(ctx):
     ctx.ob('R11.6', 'is_keyword:upper', f'{f.mod.relpath}:{f.node.lineno}',
            'dictionary lookups in is_keyword use value.upper()', not bad and n > 0,
            f'lookup(s) {bad} use the raw spelling: keyword classification depends on letter case')
+
+
+ACCEPTED_NEWLINE = {
+    'engine.grouping.group_comments.<lambda1>': 'extent of a comment run: line breaks between consecutive comments belong to the Comment group (only whitespace leaves move)',
+}
+
+
+def check_newline_sensitivity(ctx):
+    repo, folder = ctx.repo, ctx.folder
+    NL = TT(('Text', 'Whitespace', 'Newline'))
+    n = 0
+    for f in repo.funcs.values():
+        if f.mod.name not in PARSE_MODULES:
+            continue
+        if f.qname.endswith('Token.__init__'):
+            continue
+        for x in own_nodes(f.node, include_lambdas=False) if not isinstance(f.node, ast.Lambda) else own_nodes(f.node):
+            hit = None
+            if isinstance(x, ast.Attribute) and x.attr == 'is_newline' and isinstance(x.ctx, ast.Load):
+                hit = src(x)
+            elif isinstance(x, ast.Attribute) and folder.try_eval(x, f.mod) == NL:
+                hit = src(x)
+            if hit is None:
+                continue
+            n += 1
+            key = f'{f.short}:{hit}'
+            if f.short in ACCEPTED_NEWLINE:
+                ctx.ob('R11.7', key, f'{f.mod.relpath}:{x.lineno}', 'newline test accepted', 'accepted', ACCEPTED_NEWLINE[f.short])
+            else:
+                ctx.ob('R11.7', key, f'{f.mod.relpath}:{x.lineno}', 'the parse path does not distinguish line breaks from other whitespace', False,
+                       f'`{hit}` in {f.short}: replacing a line break by a blank (or the reverse) changes statement boundaries or the tree')
+    ctx.ob('R11.7', 'inventory', 'sqlparse/engine/grouping.py', f'{n} newline-sensitive site(s) in the parse path, all accepted', True)
